@@ -589,6 +589,15 @@ def pad_spec(ctx):
             if isinstance(st_, ast.Assign) and len(st_.targets) == 1 and isinstance(st_.targets[0], ast.Name):
                 loc[st_.targets[0].id] = evx(st_.value)
                 continue
+            if isinstance(st_, ast.Assign) and len(st_.targets) == 1 and isinstance(st_.targets[0], ast.Tuple) and \
+                    len(st_.targets[0].elts) == 2 and all(isinstance(x, ast.Name) for x in st_.targets[0].elts) and \
+                    isinstance(st_.value, ast.Call) and U(st_.value.func) == 'divmod' and len(st_.value.args) == 2:
+                a_, b_ = evx(st_.value.args[0]), evx(st_.value.args[1])
+                if a_ is None or b_ is None:
+                    return None
+                loc[st_.targets[0].elts[0].id] = T.floordiv(a_, b_)
+                loc[st_.targets[0].elts[1].id] = T.mod(a_, b_)
+                continue
             if isinstance(st_, ast.If):
                 tv = truth(st_.test)
                 if tv is None:
